@@ -102,6 +102,11 @@ class Vocab:
             self.flaws.append(("placeholder-stray", lambda i: self.form(self.noext[i % len(self.noext)], i) + "/#",
                                "PLACEHOLDER_INVALID", False))
         self.flaws.append(("bad-char", lambda i: self.form(self.plain[i % len(self.plain)], i) + "[", "CHARACTER_INVALID", False))
+        # a forbidden character inside an otherwise legal text / name VALUE (checked by a different routine than tag names)
+        self.text_tags = [t for t, v, k in self.value if k in ("textClass", "nameClass")]
+        if self.text_tags:
+            self.flaws.append(("bad-char-value", lambda i: self.form(self.text_tags[i % len(self.text_tags)], i) + "/ab" +
+                               "[]"[(i // 3) % 2] + "c", "CHARACTER_INVALID", False))
         # a definition whose placeholder takes a unit: the same definition used with a good and a wrongly valued Def
         self.defs = DEFS
         self.def_unit = None
@@ -173,6 +178,8 @@ class Vocab:
             return False
         if "v" in kinds and not self.value:
             return False
+        if "ext" in kinds and not self.ext_ok:
+            return False
         return True
 
 
@@ -203,6 +210,9 @@ def render(case, vocab, rot, allow_ph=False, style=0, perm=None, ns="", forms=No
         if casing == 3:      # mixed: every other tag occurrence in lower case
             leafno[0] += 1
             return txt.lower() if leafno[0] % 2 else txt
+        if casing == 4:      # mixed: every other tag occurrence in upper case
+            leafno[0] += 1
+            return txt.upper() if leafno[0] % 2 else txt
         return txt.lower() if casing == 1 else txt.upper() if casing == 2 else txt
 
     def leaf(k):
@@ -213,7 +223,12 @@ def render(case, vocab, rot, allow_ph=False, style=0, perm=None, ns="", forms=No
         if kd == "p2":
             return ns + cs(vocab.form(p2, fo + 1))
         if kd == "v":
+            if allow_ph and rot % 3 == 0:       # a template value is a legal value where placeholders are allowed
+                return ns + cs(vocab.form(vtag[0], fo + 2)) + "/#"
             return ns + cs(vocab.form(vtag[0], fo + 2)) + "/" + vtag[1]
+        if kd == "ext":      # the extension is part of the tag's name: it changes letter case with it (non-ASCII where allowed)
+            et = vocab.ext_ok[(rot * 5 + 1) % len(vocab.ext_ok)]
+            return ns + cs(vocab.form(et, fo + 3) + "/" + ("Maße-ext" if (vocab.f.is83 and rot % 2) else "Newword-ext"))
         if kd == "bad":
             flaw_used = flaw
             txt = flaw[1](rot)
